@@ -42,8 +42,19 @@ def reopen (s : Cache) : Cache :=
     statistics := s.statistics, files := s.files, nfile := s.nfile, cfg := s.cfg }
 
 /-- reopening never loses or alters items, counters, files or settings -/
-theorem reopen_dir (s : Cache) : dirOf (reopen s) = dirOf s ∧ Idle (reopen s) := by
-  sorry
+theorem reopen_dir (s : Cache) : dirOf (reopen s) = dirOf s ∧ Idle (reopen s) :=
+  ⟨rfl, rfl⟩
+
+/-- `Sim` (Proofs/DirLemmas) is: same directory, same observations, both idle -/
+private theorem sim_iff (s t : Cache) :
+    Sim s t ↔ dirOf s = dirOf t ∧ Idle s ∧ Idle t ∧ s.env = t.env := by
+  simp only [dirOf, Dir.mk.injEq, Idle]
+  constructor
+  · intro h
+    exact ⟨⟨h.rows, h.count, h.size, h.hits, h.misses, h.statistics, h.files, h.nfile, h.cfg⟩,
+      h.ds, h.dt, h.env⟩
+  · rintro ⟨⟨h1, h2, h3, h4, h5, h6, h7, h8, h9⟩, hs, ht, he⟩
+    exact ⟨h1, h2, h3, h4, h5, h6, h7, h8, h9, he, hs, ht⟩
 
 /-- `handle_independent`: for every call (outside a block), two handles on the same directory
 that receive the same observations return the same result and leave the same directory -/
@@ -51,13 +62,18 @@ theorem handle_independent (s t : Cache) (op : Op) (hd : dirOf s = dirOf t) (hs 
     (henv : s.env = t.env) (hf : op.flat = true) :
     (s.step op).2 = (t.step op).2 ∧ dirOf (s.step op).1 = dirOf (t.step op).1 ∧
     Idle (s.step op).1 ∧ Idle (t.step op).1 ∧ (s.step op).1.env = (t.step op).1.env := by
-  sorry
+  have h := step_sim ((sim_iff s t).2 ⟨hd, hs, ht, henv⟩) op hf
+  obtain ⟨h1, h2, h3, h4⟩ := (sim_iff _ _).1 h.1
+  exact ⟨h.2, h1, h2, h3, h4⟩
 
 /-- hence for whole histories: interleaving reopen / pickle / second-handle events anywhere in a
 history of calls changes neither any result nor the final directory -/
 theorem reopen_anywhere (s : Cache) (op : Op) (hs : Idle s) (hf : op.flat = true) :
     ((reopen s |>.step (.observe s.env)).1.step op).2 = (s.step op).2 ∧
     dirOf ((reopen s |>.step (.observe s.env)).1.step op).1 = dirOf (s.step op).1 := by
-  sorry
+  have h0 : Sim (reopen s |>.step (.observe s.env)).1 s :=
+    (sim_iff _ _).2 ⟨rfl, rfl, hs, rfl⟩
+  have h := step_sim h0 op hf
+  exact ⟨h.2, ((sim_iff _ _).1 h.1).1⟩
 
 end DC.Cache
